@@ -22,8 +22,9 @@ IsPrefix(a, b) == Len(a) <= Len(b) /\ \A i \in 1..Len(a) : a[i] = b[i]
 Contiguous(ms) == \A i \in 1..Len(ms) : ms[i].off = SumLen(SubSeq(ms, 1, i - 1))
 FinishedOnce(ms) == Len(ms) > 0 /\ ms[Len(ms)].fin /\ \A i \in 1..(Len(ms) - 1) : ~ms[i].fin
 \* (how the stream ends after a complete upload does not matter: the server may or may not wait for the half-close)
-\* o.payloadMatches: the concatenated data of all messages (for compressed uploads: decompressed) is the object; on
-\* real executions the harness computes it from the bytes it sent (with its own decoder), in the model it follows from the units
+\* o.payloadMatches: the concatenated data of all messages (for compressed uploads: what a decoder yields from it,
+\* whether or not it then complains about bytes following the data) is the object; on real executions the harness
+\* computes it from the bytes it sent (with its own decoder), in the model it follows from the units
 UnitsMatch(c) == c.payload = "object" /\ Flat([i \in 1..Len(c.msgs) |-> c.msgs[i].data]) = Iota(c.n)
 ValidUpload(c, o) == /\ o.payloadMatches
                      /\ Contiguous(c.msgs)                    \* contiguous offsets starting at zero
